@@ -1,5 +1,5 @@
 // Case generators of the C02 harness.
-package main
+package servex
 
 import (
 	"fmt"
@@ -341,7 +341,9 @@ func genServe(r *hx.Rng, tier string) Case {
 		if c.Cache != "mem" {
 			wpar = 5
 		}
-		switch r.Pick(76, 6, 12, 6, wpar) {
+		switch r.Pick(76, 6, 12, 6, wpar, 3) {
+		case 5:
+			c.Ops = append(c.Ops, Op{Op: "grow"})
 		case 4:
 			o := Op{Op: "par"}
 			for j := r.Range(2, 8); j > 0; j-- {
